@@ -27,6 +27,8 @@ N = 8
 RANGES = {
     "deform": [(0.02, 0.05), (0.08, 0.02), (0.05, 0.05), (0.0, INF)],
     "area_um": [(20.0, 50.0), (60.0, 30.0)],
+    # a feature without NaN / inf (sorted after the ones that have them)
+    "bright_avg": [(15.0, 55.0), (65.0, 25.0), (35.0, 35.0)],
 }
 
 # polygons on (aspect, bright_avg); query points are never on a boundary
@@ -298,12 +300,18 @@ def drivers(ctx):
                  4, 2),
                 ("nan-polygon", FilterDriver(feats=("deform",), polys=(2,),
                                              with_apply_variants=False),
-                 4, 1)]
+                 4, 1),
+                # ranges on a feature with NaN and on one without, set
+                # together (edits that are not applied at once)
+                ("nan-and-finite", FilterDriver(
+                    feats=("area_um", "bright_avg"), polys=()), 4, 1)]
     return [("full", FilterDriver(), 4, 2),
             ("small-deep", FilterDriver(feats=("deform",), polys=(0,)),
              6, 3),
             ("nan-polygon", FilterDriver(feats=("deform", "area_um"),
-                                         polys=(2,)), 4, 2)]
+                                         polys=(2,)), 4, 2),
+            ("nan-and-finite", FilterDriver(
+                feats=("area_um", "bright_avg", "deform"), polys=()), 4, 2)]
 
 
 def run(ctx):
